@@ -3,8 +3,12 @@ Spec: specs/Packet/UdpLayout.tla (+ MCUdpLayout).  TLC checks the layout arithme
 relay services' buffer formulas (InBuffer, WithinMtu, TooBigIsRefused, RelaySafe, RoundTrip, ...) over the case
 lattice with the constants read from the compiled code and prints, per case, the expected journey of one datagram
 through one relay hop; the driver (harness/drivers/c05) replays every case on the real packers and unpackers in
-canary-filled buffers sized by the services' own computation."""
-import json, os, time, random, collections
+canary-filled buffers sized by the services' own computation.
+specs/Packet/UdpSession.tla (+ MCUdpSession) is the downlink of a session relay over the life of one client
+session that changes its address (and, on a dual-stack listener, its address family): TLC checks that every reply
+is judged by the limit of the family the session is at now and prints the replies around the limits of both
+families for every history of addresses; the live driver plays them on real Shadowsocks 2022 session relays."""
+import json, os, time, random, collections, itertools, concurrent.futures
 import vlib
 from props import common
 
@@ -222,6 +226,162 @@ def replay_cases(v, binary, cases, seed, prm, what, timeout):
     return tot, nviol
 
 
+# ---------------------------------------------------------------- sessions that change their address (UdpSession.tla)
+
+SESS_INVARIANTS = ["TypeOK", "CachedLimit"]
+SESS_PROPERTIES = ["LimitIsCurrent", "WithinMtu", "TooBigIsRefused", "HistoryFree"]
+CLIENT_KINDS = {"dual": ["m4", "v6"], "v4": ["v4"], "v6": ["v6"]}
+SESS_MOVES = 2
+
+
+def fam_of(kind):
+    return "v6" if kind == "v6" else "v4"
+
+
+def sess_paths(ln):
+    """every history of SESS_MOVES + 1 addresses on a listener (neighbours differ)"""
+    addrs = [(k, s) for k in CLIENT_KINDS[ln] for s in (1, 2)]
+    return [p for p in itertools.product(addrs, repeat=SESS_MOVES + 1) if all(p[i] != p[i + 1] for i in range(SESS_MOVES))]
+
+
+def sess_plan(tier, seed):
+    """(configurations of the session model, live runs).  A run = one relay configuration, batch mode and upstream
+    side with the sessions (address histories) played on it.  quick: every ordered pair of addresses of a dual-stack
+    listener as the first move, a seeded second move, in both batch modes at MTU 1500, half of them each at a
+    seeded second MTU, and one listener bound to a single family; thorough: every history on every listener at
+    every MTU in both batch modes."""
+    rnd = random.Random(seed * 15485863 + (11 if tier == "thorough" else 5))
+    runs = []
+
+    def add(cfg, batch, paths, per_group):
+        paths = list(paths)
+        for i in range(0, len(paths), per_group):
+            cp = rnd.choice(["direct", "none"])
+            ufam = rnd.choice(["v4", "v6"])
+            runs.append(dict(cfg=cfg, batch=batch, paths=paths[i:i + per_group], cp=cp, ufam=ufam,
+                             srck=ufam if cp == "direct" else rnd.choice(["v4", "v6"]), rpol=rnd.choice(["none", "none", "all"])))
+
+    if tier == "thorough":
+        cfgs = [dict(mtu=m, ln=ln, sp=sp) for m in MTUS for ln in ("dual", "v4", "v6") for sp in ("ss0", "ss1")]
+        for cfg in cfgs:
+            for batch in ("", "no"):
+                ps = sess_paths(cfg["ln"])
+                rnd.shuffle(ps)
+                add(cfg, batch, ps, 6)
+        return cfgs, runs
+    sps = ["ss0", "ss1"]
+    rnd.shuffle(sps)
+    cfg_a = dict(mtu=1500, ln="dual", sp=sps[0])
+    cfg_b = dict(mtu=rnd.choice([m for m in MTUS if m != 1500]), ln="dual", sp=sps[1])
+    cfg_c = dict(mtu=rnd.choice(MTUS), ln=rnd.choice(["v4", "v6"]), sp=rnd.choice(sps))
+
+    def first_moves(ln):
+        """one history per ordered pair of addresses: the pair, then a seeded third address"""
+        by = collections.defaultdict(list)
+        for p in sess_paths(ln):
+            by[p[:2]].append(p)
+        out = [rnd.choice(by[k2]) for k2 in sorted(by)]
+        rnd.shuffle(out)
+        return out
+
+    for batch in ("", "no"):
+        add(cfg_a, batch, first_moves("dual"), 4)
+    halves = first_moves("dual")
+    add(cfg_b, "", halves[:6], 3)
+    add(cfg_b, "no", halves[6:], 3)
+    add(cfg_c, rnd.choice(["", "no"]), first_moves(cfg_c["ln"]), 4)
+    return [cfg_a, cfg_b, cfg_c], runs
+
+
+def tlc_sessions(tier, consts, cfgs, refresh="always", emit=True):
+    big = tier == "thorough"
+    cs = dict(consts)
+    cs.update(SessCfgs=SS(tla_value(c) for c in cfgs), SessSocks="{1, 2}", SessSources=SS([addr("v4", 0, 53), addr("v6", 0, 53)]),
+              SessDeltas="{-2, -1, 0, 1, 2}" if big else "{-1, 0, 1}", SessSmall="{0, 1, 2, 3}" if big else "{0, 1}", SessMaxMoves=SESS_MOVES,
+              SessRefresh=refresh, EMIT="ACTION_CONSTRAINT Emit" if emit else "")
+    return vlib.tlc(SPEC, "MCUdpSession", "MCUdpSession.cfg", cs, workers=4 if big else 2, timeout=900 if big else 400, edges=False, keep_out=True, heap="2g")
+
+
+def cfg_key(cfg):
+    return (cfg["mtu"], cfg["ln"], cfg["sp"])
+
+
+def path_key(path):
+    return tuple((a["k"], a["s"]) for a in path)
+
+
+def session_groups(cases, runs, seed):
+    """Live groups (harness/drivers/c05 liveGroup with sessions) for the runs of the plan, from the replies the model
+    printed, and what the lattice holds (vacuity guard: replies that a limit left over from an earlier address of
+    the other family would decide differently, both ways)."""
+    rnd = random.Random(seed * 32452843 + 3)
+    table = collections.defaultdict(dict)       # (cfg, path, source kind) -> (L, fresh) -> reply
+    limit = {}                                  # (cfg, family) -> the model's limit
+    for x in cases:
+        r, ck, pk = x["r"], cfg_key(x["cfg"]), path_key(x["path"])
+        slot = table[(ck, pk, r["src"]["k"])]
+        old = slot.get((r["L"], r["fresh"]))
+        if old is not None and old["out"] != r["out"]:
+            raise vlib.Broken("the session model judges the same reply in the same history differently: %s / %s" % (json.dumps(old), json.dumps(r)))
+        slot[(r["L"], r["fresh"])] = r
+        limit[(ck, fam_of(pk[-1][0]))] = r["out"]["max"]
+    groups, kinds = [], collections.Counter()
+    for run in runs:
+        cfg, ck = run["cfg"], cfg_key(run["cfg"])
+        g = dict(sp=cfg["sp"], cp=run["cp"], smtu=cfg["mtu"], cmtu=cfg["mtu"], lfam="v4" if cfg["ln"] == "dual" else cfg["ln"], ufam=run["ufam"], allc=False,
+                 opol="none", rpol=run["rpol"], batch=run["batch"], listen="dual" if cfg["ln"] == "dual" else "", cases=[], sessions=[])
+        for path in run["paths"]:
+            stages = []
+            for i in range(len(path)):
+                here = path[:i + 1]
+                slot = table.get((ck, here, run["srck"]))
+                if not slot:
+                    raise vlib.Broken("the session model printed no replies for %s at %s from a %s source" % (ck, here, run["srck"]))
+                lens = sorted({L for (L, _) in slot})
+                rnd.shuffle(lens)
+                lo, hi = sorted((limit[(ck, "v6")], limit[(ck, "v4")])) if (ck, "v6") in limit and (ck, "v4") in limit else (0, 0)
+                # the first reply after a move is the one that makes the relay look at the address again: let it be
+                # one that the two families decide differently (where there are two families)
+                between = [L for L in lens if lo < slot[(L, False) if (L, False) in slot else (L, True)]["out"]["need"] <= hi]
+                if i > 0 and between:
+                    first = rnd.choice(between)
+                    lens.remove(first)
+                    lens.insert(0, first)
+                mpath = [dict(k=k2, s=s2) for (k2, s2) in here]
+                replies = []
+                for j, L in enumerate(lens):
+                    r = slot.get((L, i > 0 and j == 0))
+                    if r is None:
+                        raise vlib.Broken("the session model has no %s reply of %d bytes at %s" % ("first" if j == 0 else "later", L, here))
+                    out = r["out"]
+                    replies.append({"c": dict(dir="down", sp=g["sp"], cp=g["cp"], smtu=g["smtu"], cmtu=g["cmtu"], omtu=g["cmtu"], lfam=fam_of(here[-1][0]), ufam=g["ufam"],
+                                              a=r["src"], L=L, opol=g["opol"], rpol=g["rpol"], psm="adv", allc=False, lm="session"),
+                                    "st": "refused" if out["e"] else "done", "o": {"e": False}, "r": {"e": out["e"], "need": out["need"], "max": out["max"]},
+                                    "mig": {"path": mpath, "fresh": r["fresh"]}})
+                    kinds["replies"] += 1
+                    kinds["refused" if out["e"] else "sent"] += 1
+                    tag = "mmsg" if run["batch"] == "" else "generic"
+                    for (k0, _) in here[:-1]:
+                        old = limit.get((ck, fam_of(k0)))
+                        if old is None or fam_of(k0) == fam_of(here[-1][0]):
+                            continue
+                        if out["e"] and out["need"] <= old:
+                            kinds["refused_though_an_earlier_family_allows:" + tag] += 1
+                        if not out["e"] and out["need"] > old:
+                            kinds["sent_though_an_earlier_family_refuses:" + tag] += 1
+                stages.append(replies)
+            g["sessions"].append({"path": [dict(k=k2, s=s2) for (k2, s2) in path], "stages": stages})
+            kinds["sessions"] += 1
+            for i in range(1, len(path)):
+                kinds["move %s>%s" % (path[i - 1][0], path[i][0])] += 1
+        groups.append(g)
+    for need in ["refused_though_an_earlier_family_allows:mmsg", "refused_though_an_earlier_family_allows:generic", "sent_though_an_earlier_family_refuses:mmsg",
+                 "sent_though_an_earlier_family_refuses:generic", "move m4>v6", "move v6>m4", "move m4>m4", "move v6>v6", "sent", "refused"]:
+        if not kinds[need]:
+            raise vlib.Broken("the sessions of this run hold no %s" % need)
+    return groups, kinds
+
+
 def live_groups(cases, tier, seed):
     """Cases that can run through a real relay on loopback sockets, grouped by relay configuration; a seeded
     sample of the groups of every protocol pair."""
@@ -294,7 +454,11 @@ def run(tier, seed, replay):
         if rp.get("live") is True:
             raise vlib.Broken("a crashed live relay has no single-case replay: rerun the tier with the same seed")
         if "live" in rp:
-            tot = run_live(v, binary, [dict(rp["live"], cases=[rp["case"]])], seed, 120)
+            grp = dict(rp["live"], cases=[rp["case"]])
+            mig = rp["case"].get("mig")
+            if mig:     # a reply of a session that changed its address: the session is played up to that address
+                grp = dict(rp["live"], cases=[], sessions=[{"path": mig["path"], "stages": [[] for _ in mig["path"][:-1]] + [[rp["case"]]]}])
+            tot = run_live(v, binary, [grp], seed, 120)
             v.coverage.update(evaluations=tot["cases"], distinct_nontrivial=2, rule="replay of one recorded case through a live relay")
             v.sample(rp["case"]["c"])
             return v.finish()
@@ -305,6 +469,12 @@ def run(tier, seed, replay):
         return v.finish()
 
     t0 = time.time()
+    # the session model is small: TLC checks it while the layout lattice is being enumerated
+    sess_cfgs, sess_runs = sess_plan(tier, seed)
+    pool = concurrent.futures.ThreadPoolExecutor(max_workers=2)
+    sess_fut = pool.submit(tlc_sessions, tier, consts, sess_cfgs)
+    # (thorough) the design mutant "refresh the limit only when Is4 flips" must be refuted by the same configurations
+    mut_fut = pool.submit(tlc_sessions, tier, consts, sess_cfgs, "is4", False) if big else None
     r = tlc_cases(tier, seed, consts)
     vlib.log("[tlc] %d distinct, %d generated, %.1fs, violation=%s" % (r.distinct, r.generated, time.time() - t0, r.violation))
     v.coverage["tlc"] = {"distinct": r.distinct, "generated": r.generated, "depth": r.depth, "wall_s": round(r.wall, 1), "violated": r.violation,
@@ -370,13 +540,33 @@ def run(tier, seed, replay):
     vlib.log("[replay] %d cases, %d real calls, %.1fs" % (tot["behaviours"], tot["steps"], time.time() - t1))
     if tot["behaviours"] != len(cases):
         raise vlib.Broken("the driver ran %d of %d cases" % (tot["behaviours"], len(cases)))
+    # sessions that change their address: the model's verdict, then its replies for the live relays
+    rs = sess_fut.result()
+    vlib.log("[tlc] sessions: %d distinct, %d generated, %.1fs, violation=%s" % (rs.distinct, rs.generated, rs.wall, rs.violation))
+    if rs.violation:
+        # the model is the code's design (refresh on every change of address) with the code's constants: a violated
+        # property here is a statement about the model, to be reproduced on the code before it counts
+        raise vlib.Broken("the session model violates %s with the code's constants:\n%s" % (rs.violation, rs.out[-2500:]))
+    sess_cases = parse_cases(rs.out)
+    rs.out = ""
+    sess_mutant = None
+    if mut_fut is not None:
+        rm = mut_fut.result()
+        sess_mutant = rm.violation
+        if not rm.violation:
+            raise vlib.Broken("the session model does not refute the design mutant that refreshes the limit only when Is4 flips: its configurations are too weak")
+    pool.shutdown()
+    sess_groups, sess_kinds = session_groups(sess_cases, sess_runs, seed)
     # the same cases through real relay services on loopback sockets (the relay goroutines' own buffers and arithmetic)
     t2 = time.time()
     groups = live_groups(cases, tier, seed)
-    live = run_live(v, binary, groups, seed, 900 if big else 400)
-    vlib.log("[live] %d relays, %d cases, %.1fs" % (live["live_groups"], live["cases"], time.time() - t2))
-    if live["live_groups"] != len(groups) and not live["crashed"]:
-        raise vlib.Broken("the driver ran %d of %d live relays" % (live["live_groups"], len(groups)))
+    live = run_live(v, binary, groups + sess_groups, seed, 900 if big else 400)
+    vlib.log("[live] %d relays, %d cases (%d sessions, %d moves, %d replies), %.1fs" % (live["live_groups"], live["cases"], live["mig_sessions"], live["mig_moves"],
+                                                                                       live["mig_replies"], time.time() - t2))
+    if live["live_groups"] != len(groups) + len(sess_groups) and not live["crashed"]:
+        raise vlib.Broken("the driver ran %d of %d live relays" % (live["live_groups"], len(groups) + len(sess_groups)))
+    if not live["crashed"] and (live["mig_sessions"] != sess_kinds["sessions"] or live["mig_replies"] != sess_kinds["replies"]):
+        raise vlib.Broken("the driver played %d of %d sessions, %d of %d replies" % (live["mig_sessions"], sess_kinds["sessions"], live["mig_replies"], sess_kinds["replies"]))
     v.coverage.update(
         evaluations=tot["behaviours"], distinct_nontrivial=len(shapes), real_calls=tot["steps"], states=r.distinct, transitions=r.generated,
         kinds=dict(kinds),
@@ -386,11 +576,17 @@ def run(tier, seed, replay):
         stages=dict(stages), pairs=len(hist), cases_per_pair_min=min(hist.values()), cases_per_pair_max=max(hist.values()),
         dropped_by_receive_window=tot.get("dropped_by_receive_window", 0), service_relays_read=tot.get("service_relays_read", 0),
         service_numbers_from_helpers=tot.get("service_numbers_from_helpers", 0),
-        live_relays=live["live_groups"], live_cases=live["cases"], live_delivered=live["live_delivered"], live_dropped_as_expected=live["live_dropped_as_expected"])
+        live_relays=live["live_groups"], live_cases=live["cases"], live_delivered=live["live_delivered"], live_dropped_as_expected=live["live_dropped_as_expected"],
+        session_model={"distinct": rs.distinct, "generated": rs.generated, "wall_s": round(rs.wall, 1), "replies_printed": len(sess_cases),
+                       "configurations": sess_cfgs, "invariants": SESS_INVARIANTS, "properties": SESS_PROPERTIES, "design_mutant_is4_refuted_by": sess_mutant},
+        live_sessions=live["mig_sessions"], live_session_moves=live["mig_moves"], live_session_family_changes=live["mig_family_changes"],
+        live_session_replies=live["mig_replies"], session_kinds=dict(sess_kinds))
     v.assumptions += ["AEAD, AES and BLAKE3 are correct (observed on the replayed bytes, not modelled)",
                       "the amount of padding is the code's random choice; positions are affine in it and TLC follows both extremes",
                       "uplink buffers are read out of the relays service.Config.Manager constructs; the downlink buffer arithmetic lives inside "
                       "the relay goroutines: the canary replay re-does it with the same exported helpers on the real Info() values, the live "
                       "relays (a sample of the cases per protocol pair) execute it for real, where only delivery, sizes and bytes are observable",
-                      "a direct client's domain targets (name resolution) are out of scope here (C11/C17)"]
+                      "a direct client's domain targets (name resolution) are out of scope here (C11/C17)",
+                      "sessions that change their address: the relay has stored the new address once the upstream side holds the datagram sent from it "
+                      "(recvFromServerConn* stores before it forwards); histories of up to %d moves between two sockets per family" % SESS_MOVES]
     return v.finish()
